@@ -313,12 +313,13 @@ where
 /// central moment as a function of the sample mean.
 ///
 /// It takes as input all moments up to order *p*, ordered by power magnitude - *p* is
-/// inferred to be the length of the *moments* array.
+/// inferred to be the length of the *moments* array minus one.
 fn central_moment_coefficients<A>(moments: &[A]) -> Vec<A>
 where
     A: Float + FromPrimitive,
 {
-    let order = moments.len();
+    // `moments` holds the moments of order 0, 1, ..., p: p is one less than its length.
+    let order = moments.len().saturating_sub(1);
     IterBinomial::new(order)
         .zip(moments.iter().rev())
         .map(|(binom, &moment)| A::from_usize(binom).unwrap() * moment)
